@@ -22,7 +22,7 @@ RULE = ('request kinds (vlib/site.py): ok (sets cookie, header, status from its 
         'objects has not grown by more than 40 between N = 160 and N = 400 (300 and 2000 in thorough; N1 lies beyond the 128-entry urlsplit cache of the standard library). Non-trivial = consecutive requests of different kinds where the '
         'earlier one left state (cookie / header / status / error); distinct ordered kind pairs covered are reported.')
 ASSUMPTIONS = ['one worker thread (reuse of the per-thread request/response objects is the mechanism under test)',
-               '"constant" retention is operationalised as <= 10 live environ/stream objects, no growth between N1 and N2, <= 40 additional gc-tracked objects over 240 further requests, and (third window, another 240 requests) at most one additional allocated memory block per request (sys.getallocatedblocks: strings, registry and cache entries that the gc census cannot see), measured after the bounded caches of the standard library (urlsplit LRU, 128 entries) are full',
+               '"constant" retention is operationalised as <= 10 live environ/stream objects, no growth between N1 and N2, <= 40 + (window / 10) additional gc-tracked objects over the 240 (thorough: 1700) further requests, and (third window, another 240 requests) at most one additional allocated memory block per request (sys.getallocatedblocks: strings, registry and cache entries that the gc census cannot see), measured after the bounded caches of the standard library (urlsplit LRU, 128 entries) are full',
                'reference responses come from applications created before the application under test (application independence is C10)']
 
 LEAVES_STATE = {'ok', 'ok_json_accept', 'crash', 'raised', 'gen', 'cookie_then_abort', 'badchunk', 'oversized', 'badjson', 'badmultipart', 'notfound_json', 'badpath', 'head_ok'}
@@ -155,7 +155,7 @@ def census(ctx, kinds, n1, n2, label):
     # objects of errors_map (their traceback is dropped at the next raise): 2 objects each, plus slack
     if alive2 > 10 or alive2 > alive1 + 2:
         raise CheckFailure(f'after {n2} requests of {label} {alive2} per-request objects (environ / input stream) are still alive ({alive1} after {n1}): not constant')
-    if growth > 40:
+    if growth > 40 + (n2 - n1) // 10:          # (bounded caches keyed by request text keep filling slowly over long windows: a real leak is at least one object per request)
         raise CheckFailure(f'gc-tracked objects grew by {growth} between request {n1} and request {n2} of {label} ({objs1} -> {objs2}): per-request state is being retained')
     if block_growth > (n3 - n2):
         raise CheckFailure(f'allocated memory blocks grew by {block_growth} over requests {n2}..{n3} of {label} (more than one block per request, long after every bounded cache '
